@@ -466,7 +466,7 @@ func clip(s string, n int) string {
 
 // object round-trips one standalone object.
 func object(r *kit.Run, c Case, kind string, v interface{}, into interface{}) {
-	data, err := safeMarshal(v, false)
+	data, err := marshalChecked(r, c, kind, v, false)
 	if err != nil {
 		r.Violation(errClause("marshal", err)+"/"+kind, fmt.Sprintf("%v: %v", c, err), c)
 		return
@@ -489,11 +489,7 @@ func object(r *kit.Run, c Case, kind string, v interface{}, into interface{}) {
 func osmContainer(r *kit.Run, c Case, v *osm.OSM, indent bool) {
 	var data []byte
 	var err error
-	if indent {
-		data, err = safeMarshal(v, true)
-	} else {
-		data, err = safeMarshal(v, false)
-	}
+	data, err = marshalChecked(r, c, "osm", v, indent)
 	if err != nil {
 		r.Violation(errClause("marshal", err)+"/osm", fmt.Sprintf("%v: %v", c, err), c)
 		return
@@ -549,7 +545,7 @@ func osmContainer(r *kit.Run, c Case, v *osm.OSM, indent bool) {
 }
 
 func changeContainer(r *kit.Run, c Case, v *osm.Change) {
-	data, err := safeMarshal(v, false)
+	data, err := marshalChecked(r, c, "osmChange", v, false)
 	if err != nil {
 		r.Violation(errClause("marshal", err)+"/osmChange", fmt.Sprintf("%v: %v", c, err), c)
 		return
@@ -573,7 +569,7 @@ func changeContainer(r *kit.Run, c Case, v *osm.Change) {
 }
 
 func diffContainer(r *kit.Run, c Case, v *osm.Diff) {
-	data, err := safeMarshal(v, false)
+	data, err := marshalChecked(r, c, "diff", v, false)
 	if err != nil {
 		r.Violation(errClause("marshal", err)+"/diff", fmt.Sprintf("%v: %v", c, err), c)
 		return
@@ -758,6 +754,25 @@ func errClause(base string, err error) string {
 		return base + "-panic"
 	}
 	return base + "-error"
+}
+
+// marshalChecked is safeMarshal plus two clauses about the call itself:
+// marshalling does not modify its input, and marshalling the same value again
+// gives the same text (nothing is left behind in the value or the package).
+func marshalChecked(r *kit.Run, c Case, kind string, v interface{}, indent bool) ([]byte, error) {
+	before := kit.DeepCopy(v)
+	data, err := safeMarshal(v, indent)
+	if err != nil {
+		return data, err
+	}
+	if !reflect.DeepEqual(before, v) {
+		r.Violation("marshal/input-modified/"+kind, fmt.Sprintf("%v: the value differs from the deep copy made before xml.Marshal: %s", c, osmeq.Diff(before, v)), c)
+	}
+	again, err2 := safeMarshal(v, indent)
+	if err2 != nil || !bytes.Equal(data, again) {
+		r.Violation("marshal/not-repeatable/"+kind, fmt.Sprintf("%v: second xml.Marshal of the same value: err=%v\n%s\nvs\n%s", c, err2, clip(string(again), 600), clip(string(data), 600)), c)
+	}
+	return data, nil
 }
 
 // byValue marshals the value v points to as a plain, non-addressable value
